@@ -85,7 +85,7 @@ PROPS = {
         "claim": "Theorems about NewValueSet (values reported back lower-cased in order, lookups by name / type / type+subtype under the stated uniqueness, signature render/load round trip). Tied to the code by differential runs over random value lists with provenance-carrying values; built functions inside conversion chains are exercised by the resolver families.",
         "note": "The struct-tag string round trip is an explicit hypothesis (TagRoundTrips), discharged by evaluation for sample labels and checked on the real code by the correspondence run.",
         "theorems": ["ArgMapper.C15.values_roundtrip", "ArgMapper.C15.lookup_named", "ArgMapper.C15.lookup_typed", "ArgMapper.C15.lookup_typed_sub", "ArgMapper.C15.signature_roundtrip", "ArgMapper.C15.signature_positional_pre_repair"],
-        "modules": ["ArgMapper.Props.C15"],
+        "modules": ["ArgMapper.Props.C15"], "facts": {"vsetValidates": "true"},
         "rule": "vset: at least one value; sig: positional signatures.",
         "runs": {"quick": [fam("vset", 1500, 6), fam("sig", 1000, 5), fam("call", 500, 0, "general")],
                  "thorough": [fam("vset", 100000, 6), fam("sig", 50000, 5), fam("call", 60000, 0, "general")]},
